@@ -471,10 +471,12 @@ def execute(plan, ctx):
                 if op['single']:
                     ctx.probe('single_emit')
                     if exp_ret != '__nomatch__':
-                        ctx.check(ret == exp_ret, 'emit-single-returns-first-result',
+                        ctx.check(ret == exp_ret or (isinstance(ret, tuple) and list(ret) == exp_ret),
+                                  'emit-single-returns-first-result',
                                   lambda: {'step': step, 'expected': exp_ret, 'got': ret})
                 else:
-                    ctx.check(ret == exp_ret, 'emit-returns-results-in-call-order',
+                    ctx.check(ret is not None and list(ret) == exp_ret,
+                              'emit-returns-results-in-call-order',
                               lambda: {'step': step, 'expected': exp_ret, 'got': ret})
                 if any(c[5] > 0 for c in exp):
                     ctx.probe('reentrant_emit')
